@@ -64,8 +64,9 @@ func (w *World) asyncWriteDone(aid int, cs *connState, opID, n int, c gnet.Conn,
 		cs.wBytes += n
 		return
 	}
-	if !cs.closed {
-		// the write itself failed: partial prefix possible, connection closes
+	if !errors.Is(err, net.ErrClosed) && cs.failed == nil {
+		// the write itself failed (not: the connection had been closed before):
+		// a proper prefix may be on the wire, the connection closes
 		cs.failed = &wEntry{opID, n}
 		cs.peerCause = true
 	}
